@@ -119,7 +119,7 @@ static void handleJob(const std::vector<const Prog*>& progs, const std::string& 
 		bool ok = ctx.outcome.find("live=0 bad=0 early=0") == 0 && ctx.outcome.find("heap=+0 asan=-") != std::string::npos;
 		if (!ok) vf::violation("handle_lifetime", fmt("%s, programs [%s]: %s under schedule %s", HK<H>::name(), kase.c_str(), ctx.outcome.c_str(), x.trace().c_str()), kase + "|" + x.trace());
 	};
-	if (replay) { vsched::Result x = vsched::run_once(vsched::parse_schedule(*replay), body); after(x); return; }
+	if (replay) { vsched::run_once(std::vector<uint8_t>(), body); vsched::Result x = vsched::run_once(vsched::parse_schedule(*replay), body); after(x); return; }
 	// warm-up execution (lazily built statics) whose outcome is not judged for the heap delta
 	{ vsched::run_once(std::vector<uint8_t>(), body); }
 	vsched::ExploreStats st = vsched::explore(body, after, bound);
